@@ -159,10 +159,13 @@ static bool doReach(Interp& I, const Step& s)
         return I.fail("exception", "build(REACHABLE " + alg + ") threw " + er.getName());
     }
     if (!bop) { I.R.labels.add("unsupported.reach." + combo); return true; }
-    dd_edge* e = new dd_edge(W.F[fc]);
+    // optional token "inplace": the result edge is (a copy of) the initial-set edge, apply(REACHABLE, x, rel, x)
+    const bool inplace = s.size() > 7 && s[7] == "inplace" && fi == fc;
+    dd_edge* e = inplace ? new dd_edge(*W.slots[size_t(init)].e) : new dd_edge(W.F[fc]);
+    if (inplace) I.R.labels.add("result_aliases_operand");
     dd_edge beforeI(*W.slots[size_t(init)].e), beforeR(*W.slots[size_t(rel)].e);
     try {
-        bop->compute(*W.slots[size_t(init)].e, *W.slots[size_t(rel)].e, *e);
+        bop->compute(inplace ? *e : *W.slots[size_t(init)].e, *W.slots[size_t(rel)].e, *e);
     } catch (MEDDLY::error& er) {
         delete e;
         return I.fail("exception", "REACHABLE " + combo + " threw " + er.getName());
@@ -214,10 +217,12 @@ static bool doImage(Interp& I, const Step& s)
         return I.fail("exception", "build(IMAGE) threw " + std::string(er.getName()));
     }
     if (!bop) { I.R.labels.add("unsupported.image." + combo); return true; }
-    dd_edge* e = new dd_edge(W.F[fc]);
+    const bool inplace = s.size() > 6 && s[6] == "inplace" && fs == fc;
+    dd_edge* e = inplace ? new dd_edge(*W.slots[size_t(set)].e) : new dd_edge(W.F[fc]);
+    if (inplace) I.R.labels.add("result_aliases_operand");
     dd_edge beforeS(*W.slots[size_t(set)].e), beforeR(*W.slots[size_t(rel)].e);
     try {
-        bop->compute(*W.slots[size_t(set)].e, *W.slots[size_t(rel)].e, *e);
+        bop->compute(inplace ? *e : *W.slots[size_t(set)].e, *W.slots[size_t(rel)].e, *e);
     } catch (MEDDLY::error& er) {
         delete e;
         return I.fail("exception", "IMAGE " + combo + " threw " + er.getName());
@@ -271,10 +276,12 @@ static bool doVecMat(Interp& I, const Step& s)
         return I.fail("exception", "build(VM/MV) threw " + std::string(er.getName()));
     }
     if (!bop) { I.R.labels.add("unsupported.vm." + combo); return true; }
-    dd_edge* e = new dd_edge(W.F[fc]);
+    const bool inplace = s.size() > 6 && s[6] == "inplace" && fv == fc;
+    dd_edge* e = inplace ? new dd_edge(*W.slots[size_t(vec)].e) : new dd_edge(W.F[fc]);
+    if (inplace) I.R.labels.add("result_aliases_operand");
     try {
-        if (vm) bop->compute(*W.slots[size_t(vec)].e, *W.slots[size_t(mat)].e, *e);
-        else bop->compute(*W.slots[size_t(mat)].e, *W.slots[size_t(vec)].e, *e);
+        if (vm) bop->compute(inplace ? *e : *W.slots[size_t(vec)].e, *W.slots[size_t(mat)].e, *e);
+        else bop->compute(*W.slots[size_t(mat)].e, inplace ? *e : *W.slots[size_t(vec)].e, *e);
     } catch (MEDDLY::error& er) {
         delete e;
         return I.fail("exception", combo + " threw " + er.getName());
@@ -345,7 +352,13 @@ static bool doPregen(Interp& I, const Step& s)
     const std::string combo = std::string(byLevels ? "bylevels" : "byevents") + "." + (fwd ? "fwd." : "bwd.") + split + "." + setLabel(SK_BOOL, SI);
     if (!I.strictErrors && I.excludedCombo("pregen", combo, split, SR, SI.red == 'F' ? -'F' : int(SK_BOOL))) { I.R.labels.add("excluded.pregen." + combo); return true; }
 
-    dd_edge* e = new dd_edge(W.F[fc]);
+    // optional tokens after the forest: "inplace" (result edge is a copy of the initial-set edge),
+    // "again" (a second compute() on the same saturation operation / relation object must give the same edge)
+    bool inplace = false, again = false;
+    for (size_t t = 7; t < s.size(); t++) { if (s[t] == "inplace") inplace = true; if (s[t] == "again") again = true; }
+    dd_edge* e = inplace ? new dd_edge(*W.slots[size_t(init)].e) : new dd_edge(W.F[fc]);
+    if (inplace) I.R.labels.add("result_aliases_operand");
+    bool againDiffers = false;
     try {
         pregen_relation* rel = byLevels ? new pregen_relation(W.F[fr]) : new pregen_relation(W.F[fr], unsigned(ev.size()));
         for (int sl : ev) rel->addToRelation(*W.slots[size_t(sl)].e);
@@ -353,12 +366,19 @@ static bool doPregen(Interp& I, const Step& s)
         saturation_operation* sat = fwd ? SATURATION_FORWARD(W.F[fi], rel, W.F[fc])
                                         : SATURATION_BACKWARD(W.F[fi], rel, W.F[fc]);
         if (!sat) { delete rel; delete e; I.R.labels.add("unsupported.pregen." + combo); return true; }
-        sat->compute(*W.slots[size_t(init)].e, *e);
+        sat->compute(inplace ? *e : *W.slots[size_t(init)].e, *e);
+        if (again) {
+            dd_edge e2(W.F[fc]);
+            sat->compute(*W.slots[size_t(init)].e, e2);
+            againDiffers = !(e2 == *e);
+            I.R.labels.add("pregen_second_compute");
+        }
         operation::destroy(sat);
     } catch (MEDDLY::error& er) {
         delete e;
         return I.fail("exception", "partitioned saturation (" + combo + ") threw " + er.getName());
     }
+    if (againDiffers) { delete e; return I.fail("C20.second-call", "a second compute() on the same saturation operation (" + combo + ") returned a different edge"); }
     I.R.labels.add("op.pregen." + combo);
     I.R.labels.add("op.pregen");
     if (ev.size() >= 2) I.R.labels.add("pregen_2events");
